@@ -27,8 +27,9 @@ RULE = ("one evaluation = one compress -> select -> decompress round trip on gen
 INTERLEAVING_MEASURE = "distinct (W, arrival order of compress jobs, lazy flag, compress-twice flag) tuples"
 PROBES = ["unordered_permuted", "w1_shared_mode", "wN_copy_mode", "compress_twice", "zero_row_group",
           "boundary_selection", "repeated_rows", "mixed_column_sets", "multi_einsum", "lazy_calls",
-          "real_table_runs", "real_table_groups", "real_table_rows"]
+          "real_table_runs", "real_table_groups", "real_table_rows", "big_table_runs"]
 REAL_EVERY = 96  # every REAL_EVERY-th seed uses real pmapping tables from make_pmappings
+BIG_EVERY = 128   # every BIG_EVERY-th seed uses tables whose row totals cross 2**8 / 2**15 / 2**16
 REAL_VS_STUB = {
     "real": ["compress_einsum2pmappings/_compress_pmapping_list/_compress", "decompress_pmappings",
              "PmappingGroup, PmappingDataframe, Compatibility, pandas merge/concat",
@@ -342,6 +343,123 @@ def execute(sc, tape):
     return viols, info
 
 
+# ------------------------------------------------------------------ big tables (sub-batch)
+BIG_SHAPES = [[66000, 10], [40000, 30000, 5], [300, 65400, 200], [65535, 3], [65536, 2], [32760, 20],
+              [250, 10], [255, 1, 1], [70000], [10, 70000, 10]]
+
+
+def gen_big_scenario(seed):
+    r = random.Random(seed ^ 0xB16)
+    return {"big": True, "rows": r.choice(BIG_SHAPES), "n_einsums": r.choice([1, 2]),
+            "W": r.choice([1, 2, 4]), "order_mode": r.choice(["durations", "reverse", "fifo"]),
+            "compress_twice": r.random() < 0.3, "n_result": r.choice([3, 8, 30]),
+            "sel_seed": r.getrandbits(32), "tape_seed": r.getrandbits(48)}
+
+
+def execute_big(sc, tape):
+    """Same round trip on tables with tens of thousands of rows (vectorised build and check):
+    compressed indices must stay unique and identify their row when the running total crosses
+    8-, 15- and 16-bit boundaries."""
+    import os
+    import numpy as np
+    from sim import executor as ex
+    pd, cp, P = _S["pd"], _S["cp"], _S["P"]
+    COMP = "compressed_index"
+    viols = []
+    info = {"probes": {"big_table_runs": 1}}
+
+    def bad(cls, detail):
+        viols.append({"class": cls, "key": "big:" + cls, "detail": detail})
+
+    names = [f"E{i}" for i in range(sc["n_einsums"])]
+    e2g, src = {}, {}
+    base = 1000
+    for n in names:
+        groups, frames = [], []
+        for rows in sc["rows"]:
+            ids = np.arange(base, base + rows, dtype=np.int64)
+            base += rows
+            df = pd.DataFrame({"Total<SEP>energy": ids.astype("float64") * 2.0,
+                               f"{n}<SEP>energy<SEP>GLB<SEP>read": ids,
+                               f"{n}<SEP>mapping": ids + 7})
+            frames.append(df.copy())
+            pm = _S["PmappingDataframe"](df, n_total_pmappings=max(rows, 1), n_valid_pmappings=max(rows, 1),
+                                         ignored_resources=set(), drop_valid_reservations=False,
+                                         skip_pareto=True)
+            groups.append(_S["PmappingGroup"](_S["Compatibility"](tensors=_S["fzs"]()), pm))
+        e2g[n], src[n] = groups, frames
+    sim = ex.Sim(tape, W=sc["W"], order_mode=sc["order_mode"])
+    info["sim"] = sim
+    P.set_n_parallel_jobs(sc["W"])
+    try:
+        with ex.install(sim):
+            compressed, dd = cp.compress_einsum2pmappings(e2g, print_progress=False)
+            if sc["compress_twice"]:
+                compressed, dd = cp.compress_einsum2pmappings(e2g, print_progress=False)
+    except Exception as e:
+        bad("compress_exception", f"{type(e).__name__}: {str(e)[:300]}")
+        return viols, info
+    finally:
+        P.set_n_parallel_jobs(os.cpu_count())
+    r = random.Random(sc["sel_seed"])
+    n_res = sc["n_result"]
+    cols, sel = {}, {}
+    for n in names:
+        col = f"{n}<SEP>{COMP}"
+        if n not in compressed or len(compressed[n]) != len(sc["rows"]):
+            bad("group_count", f"{n}: wrong number of compressed groups")
+            return viols, info
+        allidx = []
+        for gi, (grp, sdf) in enumerate(zip(compressed[n], src[n])):
+            df = grp.mappings.data
+            if len(df) != len(sdf) or col not in df.columns:
+                bad("row_count", f"{n} group {gi}: {len(df)} compressed rows for {len(sdf)} source rows")
+                return viols, info
+            if not np.array_equal(df["Total<SEP>energy"].to_numpy(dtype="float64"),
+                                  sdf["Total<SEP>energy"].to_numpy(dtype="float64")):
+                bad("compressed_cells", f"{n} group {gi}: joining cells changed by compression")
+                return viols, info
+            allidx.append(df[col].to_numpy().astype(np.int64))
+        flat = np.concatenate(allidx) if allidx else np.zeros(0, dtype=np.int64)
+        if len(np.unique(flat)) != len(flat):
+            u, c = np.unique(flat, return_counts=True)
+            bad("index_not_unique", f"{n}: {int((c > 1).sum())} compressed indices are used by more than one row "
+                f"(e.g. {int(u[c > 1][0])}); group sizes {sc['rows']}")
+            return viols, info
+        # selection biased to the last rows of the last groups (highest running totals) and boundaries
+        picks = []
+        nonempty = [gi for gi, rows in enumerate(sc["rows"]) if rows]
+        for _ in range(n_res):
+            gi = r.choice(nonempty[-2:] if r.random() < 0.7 else nonempty)
+            rows = sc["rows"][gi]
+            ri = r.choice([0, rows - 1, max(0, rows - 2), r.randrange(rows)])
+            picks.append((gi, ri))
+        sel[n] = picks
+        cols[col] = [int(allidx[gi][ri]) for gi, ri in picks]
+    cols["Total<SEP>energy"] = [float(10 + i) for i in range(n_res)]
+    joined = _S["PmappingDataframe"](pd.DataFrame(cols), n_total_pmappings=n_res, n_valid_pmappings=n_res,
+                                     ignored_resources=set(), drop_valid_reservations=False, skip_pareto=True)
+    try:
+        out = cp.decompress_pmappings(joined, dd).data
+    except Exception as e:
+        bad("decompress_exception", f"{type(e).__name__}: {str(e)[:300]}")
+        return viols, info
+    if len(out) != n_res:
+        bad("row_count", f"decompressed table has {len(out)} rows, joined table had {n_res}")
+        return viols, info
+    for n in names:
+        for k, (gi, ri) in enumerate(sel[n]):
+            for c in (f"{n}<SEP>energy<SEP>GLB<SEP>read", f"{n}<SEP>mapping"):
+                want = src[n][gi][c].iloc[ri]
+                got = out[c].iloc[k] if c in out.columns else "<missing>"
+                if not _eq(got, want):
+                    bad("decompress_cells", f"result row {k} Einsum {n} (source group {gi} row {ri} of sizes "
+                        f"{sc['rows']}) col {c}: {got!r} != {want!r}")
+                    return viols, info
+    info["sel"] = sel
+    return viols, info
+
+
 # ------------------------------------------------------------------ real tables (sub-batch)
 def gen_real_scenario(seed):
     from sim import specgen
@@ -489,6 +607,8 @@ def run_seed(seed, ctx):
     from sim.minimize import minimize
     if seed % REAL_EVERY == REAL_EVERY - 1:
         return _run_real(seed)
+    if seed % BIG_EVERY == BIG_EVERY - 2:
+        return _run_real(seed, big=True)
     sc = gen_scenario(seed)
     tape = _tape(sc)
     viols, info = execute(sc, tape)
@@ -536,11 +656,11 @@ def run_seed(seed, ctx):
     return res
 
 
-def _run_real(seed):
+def _run_real(seed, big=False):
     from sim import common
-    sc = gen_real_scenario(seed)
+    sc = gen_big_scenario(seed) if big else gen_real_scenario(seed)
     tape = _tape(sc)
-    viols, info = execute_real(sc, tape)
+    viols, info = execute_big(sc, tape) if big else execute_real(sc, tape)
     common.purge_scratch()
     sim = info["sim"]
     st = {k: v for k, v in sim.stats.items() if k != "pickled_bytes"}
@@ -551,7 +671,7 @@ def _run_real(seed):
     deliv = sim.delivery_signature()
     nontrivial = bool(sel) and any(len({p[0] for p in picks}) >= 2 for picks in sel.values())
     res = {"evals": 1,
-           "keys": [hashlib.sha1(repr((sc["params"], sc["W"], deliv, sorted(sel.items()))).encode()).hexdigest()[:16]]
+           "keys": [hashlib.sha1(repr((sc.get("params") or sc.get("rows"), sc["W"], deliv, sorted(sel.items()))).encode()).hexdigest()[:16]]
            if nontrivial else [],
            "interleavings": [hashlib.sha1(repr((sc["W"], deliv, sc["compress_twice"])).encode()).hexdigest()[:16]],
            "stats": st, "sim_seconds": sim.now, "events_sha": tape.event_digest(), "violations": []}
@@ -565,8 +685,8 @@ def _run_real(seed):
 def replay(rp, ctx):
     sc = rp["scenario"]
     t = _tape(sc, replay=rp["tape"])
-    if sc.get("real"):
-        viols, info = execute_real(sc, t)
+    if sc.get("real") or sc.get("big"):
+        viols, info = execute_big(sc, t) if sc.get("big") else execute_real(sc, t)
         return {"violations": viols, "events_sha": t.event_digest()}
     viols, info = execute(sc, t)
     return {"violations": viols, "events_sha": t.event_digest()}
